@@ -81,8 +81,10 @@ struct ReloadPlan {
     k: usize,
     /// 0 load_rules (global), 1 load_rules_of_resource
     via: u8,
-    /// also give the resource an extra, very lax rule in the same call (forces a rebuild)
-    extra_lax: bool,
+    /// also give the resource an extra rule in the same call (forces a rebuild): 0 none, 1 a very lax rule,
+    /// 2 a valid rule that cannot be enforced (custom strategy without a registered generator: the manager
+    /// logs an error and skips it; the other rules must not notice)
+    extra_lax: u8,
     /// unrelated resource in the same global call: 0 none, 1 added, 2 changed
     unrelated: u8,
 }
@@ -183,12 +185,14 @@ struct Trace {
     reload_returns: Vec<String>,
 }
 
-fn load_all(res: &String, other: &String, setup: &Setup, other_variant: u8, extra_lax: bool, via: u8) -> Vec<String> {
+fn load_all(res: &String, other: &String, setup: &Setup, other_variant: u8, extra_lax: u8, via: u8) -> Vec<String> {
     let mut rets = vec![];
     if let Some(k) = &setup.flow {
         let mut rules = flow_rules(res, k);
-        if extra_lax {
+        if extra_lax == 1 {
             rules.push(Arc::new(flow::Rule { resource: res.clone(), threshold: 1e12, stat_interval_ms: 10_000, ..Default::default() }));
+        } else if extra_lax == 2 {
+            rules.push(Arc::new(flow::Rule { resource: res.clone(), threshold: 1e12, control_strategy: flow::ControlStrategy::Custom(211), ..Default::default() }));
         }
         let mut rng_order = rules.len();
         if rng_order > 1 {
@@ -209,8 +213,10 @@ fn load_all(res: &String, other: &String, setup: &Setup, other_variant: u8, extr
     if !setup.hot.is_empty() {
         let mut rules = hot_rules(res, &setup.hot);
         rules.reverse();
-        if extra_lax {
+        if extra_lax == 1 {
             rules.push(Arc::new(hotspot::Rule { resource: res.clone(), metric_type: hotspot::MetricType::Concurrency, param_index: 7, threshold: 1_000_000, params_max_capacity: 4, ..Default::default() }));
+        } else if extra_lax == 2 {
+            rules.push(Arc::new(hotspot::Rule { resource: res.clone(), metric_type: hotspot::MetricType::QPS, control_strategy: hotspot::ControlStrategy::Custom(211), param_index: 7, threshold: 1_000_000, duration_in_sec: 1, params_max_capacity: 4, ..Default::default() }));
         }
         if via == 0 {
             let mut all = rules;
@@ -225,7 +231,9 @@ fn load_all(res: &String, other: &String, setup: &Setup, other_variant: u8, extr
     if !setup.brk.is_empty() {
         let mut rules = brk_rules(res, &setup.brk);
         rules.reverse();
-        if extra_lax {
+        if extra_lax == 2 {
+            rules.push(Arc::new(cb::Rule { resource: res.clone(), strategy: cb::BreakerStrategy::Custom(211), threshold: 1.0, stat_interval_ms: 60_000, retry_timeout_ms: 1, min_request_amount: 1_000_000_000, ..Default::default() }));
+        } else if extra_lax == 1 {
             rules.push(Arc::new(cb::Rule { resource: res.clone(), strategy: cb::BreakerStrategy::ErrorCount, threshold: 1e9, stat_interval_ms: 60_000, retry_timeout_ms: 1, min_request_amount: 1_000_000_000, ..Default::default() }));
         }
         if via == 0 {
@@ -254,7 +262,7 @@ fn execute(case: &Case, mode: Mode) -> Trace {
     let other = fresh_name("c11-other");
     VClock::set_ms(case.t0);
     // initial load: the "unrelated" resource exists from the start in variant 2 (it will be changed)
-    load_all(&res, &other, &case.setup, if case.plan.unrelated == 2 { 1 } else { 0 }, false, 0);
+    load_all(&res, &other, &case.setup, if case.plan.unrelated == 2 { 1 } else { 0 }, 0, 0);
     let mut tr = Trace { obs: vec![], identity_violation: None, reload_returns: vec![] };
     let mut open: Vec<EntryStrongPtr> = vec![];
     for (i, op) in case.ops.iter().enumerate() {
@@ -273,7 +281,7 @@ fn execute(case: &Case, mode: Mode) -> Trace {
                 }
                 Mode::Reset => {
                     clear_all(&res, &other);
-                    load_all(&res, &other, &case.setup, 0, false, 0);
+                    load_all(&res, &other, &case.setup, 0, 0, 0);
                 }
             }
         }
@@ -421,7 +429,7 @@ fn gen_case(rng: &mut Rng, base: u64, long: bool) -> Case {
         setup,
         t0: base + rng.below(1000),
         ops,
-        plan: ReloadPlan { k, via: rng.below(2) as u8, extra_lax: rng.chance(1, 2), unrelated: rng.below(3) as u8 },
+        plan: ReloadPlan { k, via: rng.below(2) as u8, extra_lax: *rng.pick(&[0u8, 1, 1, 2]), unrelated: rng.below(3) as u8 },
     }
 }
 
@@ -656,7 +664,7 @@ fn main() {
                     match case.setup.brk.first() { None => "-".to_string(), Some(b) => format!("cb{}x{}", b.strategy, case.setup.brk.len()) },
                 );
                 let sig = if sensitive {
-                    Some(format!("{fam}|via{}|lax{}|other{}", case.plan.via, case.plan.extra_lax as u8, case.plan.unrelated))
+                    Some(format!("{fam}|via{}|lax{}|other{}", case.plan.via, case.plan.extra_lax, case.plan.unrelated))
                 } else {
                     None
                 };
